@@ -108,6 +108,14 @@ func chunk(from, k int) []byte {
 	return b
 }
 
+// partlyRead returns a reader of known remaining length (Len) whose total size (Size) is larger: the caller
+// has already consumed a few bytes of it. What is offered to the transaction is exactly b.
+func partlyRead(b []byte) *bytes.Reader {
+	r := bytes.NewReader(append([]byte("#####"), b...))
+	_, _ = r.Read(make([]byte, 5))
+	return r
+}
+
 type lenlessReader struct{ r io.Reader }
 
 func (l lenlessReader) Read(p []byte) (int, error) { return l.r.Read(p) }
@@ -180,7 +188,7 @@ func (d *Driver) Do(c Call) (eng.Intr, int, string) {
 		case "slice":
 			it, n, err = d.tx.WriteRequestBody(b)
 		case "known":
-			it, n, err = d.tx.ReadRequestBodyFrom(bytes.NewReader(b))
+			it, n, err = d.tx.ReadRequestBodyFrom(partlyRead(b))
 		default:
 			it, n, err = d.tx.ReadRequestBodyFrom(lenlessReader{bytes.NewReader(b)})
 		}
@@ -191,7 +199,7 @@ func (d *Driver) Do(c Call) (eng.Intr, int, string) {
 		case "slice":
 			it, n, err = d.tx.WriteResponseBody(b)
 		case "known":
-			it, n, err = d.tx.ReadResponseBodyFrom(bytes.NewReader(b))
+			it, n, err = d.tx.ReadResponseBodyFrom(partlyRead(b))
 		default:
 			it, n, err = d.tx.ReadResponseBodyFrom(lenlessReader{bytes.NewReader(b)})
 		}
